@@ -81,7 +81,9 @@ Definition get_Name (l : loc) (w : world) : string := Mapper.f_name (load l w).
 Definition get_typ (l : loc) (w : world) : ty := Mapper.f_ty (load l w).
 Definition get_IsGet (l : loc) (w : world) : bool := Mapper.f_isget (load l w).
 Definition get_IsSet (l : loc) (w : world) : bool := Mapper.f_isset (load l w).
-Definition get_Target (l : loc) (w : world) : option nat := Mapper.f_target (load l w).
+(* Target points into the OTHER array *)
+Definition get_Target (l : loc) (w : world) : option loc :=
+  option_map (match l with LSrc _ => LDst | LDst _ => LSrc end) (Mapper.f_target (load l w)).
 Definition get_warned (l : loc) (w : world) : bool := existsb (loc_eqb l) (w_warned w).
 Definition get_CanAssign (l : loc) (w : world) : bool := Mapper.f_canassign (load l w).
 Definition get_IsConv (l : loc) (w : world) : bool := Mapper.f_isconv (load l w).
